@@ -86,6 +86,7 @@ def run(F, R, tier):
     r02_7_build(cx, R, S)
     r02_labels_prims(cx, R, S)
     r02_attr_sources(cx, R, S)
+    r02_9_more(cx, R, S)
     R.floor("R02.1", 150 + 15)
     R.floor("R02.7", 17 + 17 + 17 + 8 + 60)
     return ("A2 wire layouts extracted from the typed HIR of class_reader* and simple_class_writer* and compared structurally (headers, "
@@ -2255,12 +2256,17 @@ def _stored_fields(duke, call, bool_of_arm):
     return out
 
 
-def reader_attr_fields(cx, rb, table):
+LOC_TRAIT = {"class": "duke::visitor::class::ClassVisitor", "field": "duke::visitor::field::FieldVisitor", "method": "duke::visitor::method::MethodVisitor",
+             "code": "duke::visitor::method::code::CodeVisitor", "record_component": "duke::visitor::record::RecordComponentVisitor"}
+
+
+def reader_attr_fields(cx, rb, table, loc):
     """{attribute name: set of tree fields the reader's handling of that attribute ends up in} (through the tree builder)."""
     duke = cx.duke
     res = {}
+    lt = LOC_TRAIT[loc]
     # visitor calls outside the dispatch that consume locals filled in the arms
-    all_calls = [n for n in H.walk(rb["body"]) if n.get("k") in ("call", "mcall") and ((n.get("callee") or {}).get("trait") or "").startswith("duke::visitor::")]
+    all_calls = [n for n in H.walk(rb["body"]) if n.get("k") in ("call", "mcall") and ((n.get("callee") or {}).get("trait") or "") == lt]
     for name, rec in table.items():
         body = rec["arm"]["body"]
         fields = set()
@@ -2272,19 +2278,25 @@ def reader_attr_fields(cx, rb, table):
                     if isinstance(v, bool):
                         lit = v
         for n in H.walk(body):
-            if n.get("k") in ("call", "mcall") and ((n.get("callee") or {}).get("trait") or "").startswith("duke::visitor::"):
+            if n.get("k") in ("call", "mcall") and ((n.get("callee") or {}).get("trait") or "") == lt:
                 fields |= _stored_fields(duke, n, lit)
-            elif n.get("k") == "call" and H.callee_name(n) in ("read_record_component", "read_code"):
+            elif n.get("k") == "call" and (H.callee_name(n) or "").startswith("read_"):
+                # a sub-reader that hands its result back to this level's visitor (read_record_component -> finish_record_component)
                 fb = cx.duke.by_key.get((n.get("callee") or {}).get("key"))
                 if fb is not None:
                     for x in H.walk(fb["body"]):
                         if x.get("k") in ("call", "mcall") and (H.callee_name(x) or "").startswith("finish_") and \
-                                ((x.get("callee") or {}).get("trait") or "").startswith("duke::visitor::"):
+                                ((x.get("callee") or {}).get("trait") or "") == lt:
                             fields |= _stored_fields(duke, x, None)
         # locals assigned / filled in the arm and delivered later
         locs = set()
         for n in H.walk(body):
             if n.get("k") == "assign" and H.local_of(n["l"]):
+                r0 = H.peel(n["r"], tries=True)
+                if r0.get("k") in ("call", "mcall") and ((r0.get("callee") or {}).get("trait") or "").startswith("duke::visitor::"):
+                    continue        # visitor threading (`v = Trait::finish_x(..)?`), not data
+                if r0.get("k") == "call" and (H.callee_name(r0) or "").startswith("read_"):
+                    continue
                 locs.add(H.local_of(n["l"])[0])
             if n.get("k") == "mcall" and n["name"] in ("get_or_insert_with", "insert_if_empty", "push") and H.local_of(n["recv"]):
                 locs.add(H.local_of(n["recv"])[0])
@@ -2334,7 +2346,7 @@ def r02_attr_sources(cx, R, S):
         table, hdr, _rep = reader_dispatch(cx, rb)
         if aitems is None or table is None:
             continue
-        rfields = reader_attr_fields(cx, rb, table)
+        rfields = reader_attr_fields(cx, rb, table, loc)
         body = H.peel(wb["body"])
         top = body["stmts"] + ([body["tail"]] if "tail" in body else [])
         for em in emissions(aitems):
@@ -2357,3 +2369,140 @@ def r02_attr_sources(cx, R, S):
             R.inst("R02.1", "attr-source:%s:%s" % (loc, nm), bool(rf) and wf == rf, sp=em["node"].get("sp"), expect=sorted(rf), got=sorted(wf),
                    detail="tree field(s) the reader's `%s` handling fills (through the tree builder) vs tree field(s) the writer's `%s` block reads" % (nm, nm))
     R.inst("R02.1", "attr-source:blocks", n >= 45, got=n, nontrivial=False)
+
+
+# ===================================================================================================== remaining encoding pre-conditions (R02.9)
+def _disjuncts(n):
+    n = H.peel(n, refs=False)
+    if n.get("k") == "bin" and n["op"] == "||":
+        return _disjuncts(n["l"]) + _disjuncts(n["r"])
+    return [n]
+
+
+def r02_9_more(cx, R, S):
+    duke = cx.duke
+    wc = cx.wfn("write_code")
+    if not wc:
+        return
+    ex, lays = cx.lay(wc, "w")
+    wi = cx.main(wc, "w")
+    # ---- code_length limits (JVMS 4.7.3: 0 < code_length < 65536) are checked before the length is written
+    cl = None
+    for i, it in enumerate(wi[:-1]):
+        if it.get("i") == "p" and it["t"] == "u32" and wi[i + 1].get("i") == "splice":
+            cl = it
+    ok = False
+    got = []
+    if cl is not None:
+        l = H.local_of(H.peel(cl["arg"], casts=True))
+        order = {id(n): i for i, n in enumerate(H.walk(wc["body"]))}
+        for x in H.walk(wc["body"]):
+            if x.get("k") == "if" and "else" not in x and (H.diverges(x["then"]) or H.is_err_exit(x["then"])) and order[id(x)] < order[id(cl["node"])]:
+                ds = _disjuncts(x["cond"])
+                zero = any(d.get("k") == "bin" and d["op"] == "==" and l and H.local_of(H.peel(d["l"], casts=True)) and H.local_of(H.peel(d["l"], casts=True))[0] == l[0]
+                           and H.const_value(d["r"]) == 0 for d in ds)
+                big = any(d.get("k") == "bin" and ((d["op"] == ">" and H.const_value(d["r"]) == 65535) or (d["op"] == ">=" and H.const_value(d["r"]) == 65536)) and l and
+                          H.local_of(H.peel(d["l"], casts=True)) and H.local_of(H.peel(d["l"], casts=True))[0] == l[0] for d in ds)
+                if zero or big:
+                    got.append(H.render(x["cond"]))
+                ok = ok or (zero and big)
+        # the checked local is the measured length of the code buffer
+        ok = ok and _len_root(ex, cl["arg"]) is not None
+    R.inst("R02.9", "code_length:0<len<65536-checked", ok, sp=wc["sp"], expect="`if code_length == 0 || code_length > 65535 { bail }` before it is written",
+           got=got, detail="JVMS 4.7.3: code_length must be greater than zero and less than 65536")
+    # ---- max_stack / max_locals must be present
+    m = _instr_match(wc)
+    if m is None:
+        return
+    def arm_of(v):
+        for a in m["arms"]:
+            pv = H.pat_variant(a["pat"])
+            if pv and pv[1] == v:
+                return a
+        return None
+    # ---- switch offsets: default first, then one per table entry / per pair value; lookupswitch key = pair.0
+    for vname, coll, elem_pos in (("TableSwitch", "table", None), ("LookupSwitch", "pairs", 1)):
+        arm = arm_of(vname)
+        if not R.anchor("R02.9", vname + " arm", arm, sp=m["sp"]):
+            continue
+        fields = {}
+        for f in H.pat_peel(arm["pat"]).get("fields", []):
+            b = H.pat_bindings(f["pat"])
+            if b:
+                fields[f["name"]] = b[0][0]
+        calls = [(n, ps) for n, ps in H.walk_with_parents(arm["body"]) if n.get("k") == "call" and H.callee_name(n) == "switch_helper"]
+        fb = cx.wfn("switch_helper")
+        li = [i for i, t in enumerate(fb["inputs"]) if "Label" in t and "Vec" not in t and "Labels" not in t] if fb else []
+        ok = False
+        got = []
+        if len(calls) == 2 and len(li) == 1:
+            outside = [c_ for c_ in calls if not any(q.get("k") == "for" for q in c_[1])]
+            inside = [c_ for c_ in calls if any(q.get("k") == "for" for q in c_[1])]
+            if len(outside) == 1 and len(inside) == 1:
+                d = H.local_of(outside[0][0]["args"][li[0]])
+                f_ = next(q for q in inside[0][1] if q.get("k") == "for")
+                over = H.recv_root(f_["iter"])
+                e = H.local_of(inside[0][0]["args"][li[0]])
+                path = U._find_in_pat(f_["pat"], e[0], []) if e else None
+                pos_ok = path is not None and (path == [] if elem_pos is None else (len(path) >= 1 and path[-1][:2] == ("pos", elem_pos)))
+                ok = bool(d and d[0] == fields.get("default") and over and over[0] == fields.get(coll) and pos_ok)
+                got = [H.render(outside[0][0]["args"][li[0]]), H.render(inside[0][0]["args"][li[0]]), H.render(f_["iter"])]
+                if vname == "LookupSwitch" and ok:
+                    keys = [n for n in H.walk(f_["body"]) if n.get("k") == "mcall" and n["name"] == "write_i32"]
+                    kl = H.local_of(keys[0]["args"][0]) if len(keys) == 1 else None
+                    kp = U._find_in_pat(f_["pat"], kl[0], []) if kl else None
+                    ok = kp is not None and len(kp) >= 1 and kp[-1][:2] == ("pos", 0)
+                    ord_ = {id(n): i for i, n in enumerate(H.walk(f_["body"]))}
+                    ok = ok and ord_[id(keys[0])] < ord_[id(inside[0][0])]
+        R.inst("R02.9", "%s:offsets=default-then-%s" % (vname.lower(), "table-entries" if elem_pos is None else "(key, value)-pairs"), ok, sp=arm["sp"], got=got,
+               expect="switch_helper(.., default) once, then for each element of `%s` its label%s" % (coll, "" if elem_pos is None else " after its key"))
+    # ---- invokeinterface: count = argument slots of the descriptor (incl. the receiver), then 0
+    arm = arm_of("InvokeInterface")
+    if R.anchor("R02.9", "InvokeInterface arm", arm, sp=m["sp"]):
+        res, ev = _run_instr(m, T.V("InvokeInterface", T.sym("method_ref")))
+        ws = ev.writes
+        ok = len(ws) == 4 and [w_[0] for w_ in ws] == ["write_u8", "write_u16", "write_u8", "write_u8"] and ws[3][1] == ("i", 0)
+        src = H.peel(ws[2][2]["args"][0], tries=True) if len(ws) == 4 else None
+        ok = ok and src is not None and src.get("k") == "mcall" and src["name"] == "get_arguments_size" and U._place_field(src["recv"])[0] == "desc"
+        R.inst("R02.9", "invokeinterface:count=argument-slots,0", ok, sp=arm["sp"], expect="opcode, u16 index, u8 method_ref.desc.get_arguments_size(), u8 0",
+               got=_writes_show(ws))
+    arm = arm_of("InvokeDynamic")
+    if arm:
+        res, ev = _run_instr(m, T.V("InvokeDynamic", T.sym("indy")))
+        ws = ev.writes
+        R.inst("R02.9", "invokedynamic:0,0", len(ws) == 4 and ws[2][1] == ("i", 0) and ws[3][1] == ("i", 0) and ws[2][0] == ws[3][0] == "write_u8", sp=arm["sp"],
+               expect="opcode, u16 index, 0, 0", got=_writes_show(ws))
+    # ---- get_arguments_size: 1 for the receiver, 2 per D/J, 1 per other parameter (arrays count 1)
+    gas = duke.fn("get_arguments_size")
+    if R.anchor("R02.9", "fn get_arguments_size", gas):
+        sz = [n for n in H.walk(gas["body"]) if n.get("k") == "let" and n["pat"].get("k") == "bind" and isinstance(H.const_value(n.get("init") or {"k": "x"}), int)
+              and "mut" in (n["pat"].get("mode") or "")]
+        R.inst("R02.9", "argsize:starts-at-1(this)", len(sz) == 1 and H.const_value(sz[0]["init"]) == 1, sp=gas["sp"], expect=1,
+               got=[H.const_value(x["init"]) for x in sz])
+        sid = sz[0]["pat"]["id"] if len(sz) == 1 else None
+        def increments(node):
+            out = []
+            for x in H.walk(node, into_closures=False):
+                if x.get("k") == "assignop" and H.local_of(x["l"]) and H.local_of(x["l"])[0] == sid and x["op"] in ("+", "+="):
+                    out.append(H.const_value(x["r"]))
+                if x.get("k") == "assign" and H.local_of(x["l"]) and H.local_of(x["l"])[0] == sid:
+                    for y in H.walk(x["r"]):
+                        if y.get("k") == "mcall" and y["name"] in ("checked_add", "saturating_add", "wrapping_add") and H.local_of(y["recv"]) and H.local_of(y["recv"])[0] == sid:
+                            out.append(H.const_value(y["args"][0]))
+            return out
+        wide_if = None
+        for x in H.walk(gas["body"]):
+            if x.get("k") == "if" and "else" in x:
+                chars = {H.const_value(y) for y in H.walk(x["cond"]) if y.get("k") == "lit"}
+                if {"D", "J"} <= chars:
+                    wide_if = x
+        ok = False
+        got = None
+        if wide_if is not None:
+            t_inc = increments(wide_if["then"])
+            e_inc = increments(wide_if["else"])
+            arr_in_else = any(H.const_value(y) == "[" for y in H.walk(wide_if["else"]) if y.get("k") == "lit")
+            arr_before = any(H.const_value(y) == "[" for y in H.walk(wide_if["cond"]) if y.get("k") == "lit")
+            got = (t_inc, e_inc, arr_in_else)
+            ok = t_inc == [2] and e_inc == [1] and arr_in_else and not arr_before
+        R.inst("R02.9", "argsize:D/J=2,others=1,arrays=1", ok, sp=gas["sp"], expect="+2 when the parameter starts with D or J, otherwise (after skipping `[`) +1", got=got)
